@@ -288,8 +288,11 @@ PROPS["C17"] = {
     "level": "other",
     "functions": [W + "read_href_element", W + "href_to_path", W + "_get_resources_by_hrefs"],
     "explanation": "Soundness of every multiget answer (right resource for the href, independence from the other hrefs), "
-                   "'no href is answered twice' and the href codec are discharged; 'every requested href is answered at least once' "
-                   "and the report driver above the resolver are covered only by the bounded HTTP stand-in (DESIGN 6/C17).",
+                   "'no href is answered twice', the href codec, the REPORT dispatch and the multiget driver (for requests of the usual "
+                   "shape - the property request first, then the hrefs: the resolver is asked once with exactly the requested hrefs and "
+                   "every answer becomes exactly one response, 404 or 200 with that resource's properties) are discharged; 'every "
+                   "requested href is answered at least once' inside the resolver, other request shapes and the serialisation of the "
+                   "multistatus are covered only by the bounded HTTP stand-in (DESIGN 6/C17).",
 }
 PROPS["C17"]["functions"] += ["xandikos.caldav.CalendarDataProperty.get_value_ext", W + "Backend.get_resources"]
 PROPS["C12"]["functions"] += ["xandikos.collation._match@bytes"]
@@ -344,6 +347,39 @@ PROPS["C01"]["bounded_always"] = {"xandikos.store.Store.import_one (histories)":
     "driver": STORE_EXPLORE, "bound": _STORE_BOUND}}
 _STORE_BOUND = ("histories of <= 5 store operations (quick: 250 seeded samples per back end; thorough: all of length <= 2 plus 3000 seeded samples of length <= 6) over "
                 "2 names x 2 uids x {no, current, stale etag}, deletes, restarts, on tree-git, bare-git and vdir")
+# what of each proof-level property's statement is produced by code that carries no contract (stated in the level text)
+_GAPS = {
+    "C02": "the multiget / sync-collection drivers and the allprop form of PROPFIND, which assemble responses in which getetag appears "
+           "(PROPFIND with a {DAV:}prop body at Depth 0/1, get_property_from_element, the handler GetETagProperty.get_value, GET, PUT and "
+           "the store are under contract).",
+    "C03": "the aiohttp front end's header access (the WSGI adapter is under contract); methods other than GET / PUT / DELETE.",
+    "C06": "VdirStore._scan_uids / _check_duplicate (not used by the server, which opens git stores only).",
+    "C07": "SyncCollectionReporter.report - parsing of the request's token / level and the assembly of one response per difference - "
+           "sits above the contracts (iter_changes, iter_differences_since, get_ctag, iter_with_etag), which decide what the differences are.",
+    "C08": "the getctag / sync-token property handlers themselves (one-line wrappers); PROPFIND ({DAV:}prop, Depth 0/1), "
+           "get_property_from_element and StoreBasedCollection.get_ctag / get_sync_token / get_etag are under contract.",
+    "C09": "GitStore.create / open (the representation invariant is assumed of the repository found on disk).",
+    "C13": "the two front ends up to the request path they hand to the application (WSGIRequest is under contract for headers and "
+           "path_info decoding); dulwich's own file access below the repository path it is given.",
+    "C16": "PROPFIND at Depth infinity and its allprop / propname forms (Depth 0/1 with any body is under contract: one response per "
+           "traversed resource under the listing lemma's href); serialisation of the multistatus (Status.aselement); the aiohttp front end.",
+}
+for _pid, _g in _GAPS.items():
+    if PROPS[_pid].get("level", "proof") == "proof":
+        PROPS[_pid]["gap"] = _g
+_PF = ["xandikos.webdav.get_property_from_element", "xandikos.webdav.get_properties", "xandikos.webdav.PropfindMethod.handle"]
+for _pid in ("C02", "C08", "C15", "C16"):
+    PROPS[_pid]["functions"] += _PF
+PROPS["C15"]["functions"] += ["xandikos.webdav.ProppatchMethod.handle"]
+for _pid in ("C07", "C11", "C12", "C17"):
+    PROPS[_pid]["functions"] += ["xandikos.webdav.ReportMethod.handle"]
+PROPS["C17"]["functions"] += ["xandikos.davcommon.MultiGetReporter.report"]
+# refinement checks: the git stores' own bodies against the *interface* contracts the generic code is verified with
+_RF = "xandikos.store.git."
+PROPS["C01"]["functions"] += [_RF + c + m for c in ("BareGitStore", "TreeGitStore") for m in ("._import_one@iface", ".delete_one@iface")]
+PROPS["C03"]["functions"] += [_RF + c + m for c in ("BareGitStore", "TreeGitStore") for m in ("._get_etag@iface", ".delete_one@iface")]
+PROPS["C06"]["functions"] += [_RF + c + "._import_one@iface" for c in ("BareGitStore", "TreeGitStore")]
+PROPS["C15"]["functions"] += [_RF + c + "._import_one@iface-metadata" for c in ("BareGitStore", "TreeGitStore")]
 for _pid, _sp in PROPS.items():
     for _f in _sp["functions"]:
         if _f.startswith("xandikos.store.") or _f.startswith("xandikos.web.ObjectResource") or _f.startswith("xandikos.web.StoreBasedCollection"):
